@@ -269,9 +269,10 @@ def run(ctx: Ctx):
             "where drawn (each slot derives from its own limit, start drawn given width) and where applied (warp slots, "
             "interval masks index >= start & index < start + width); (S3) evaluation mode returns the input object; (S4) on "
             "every path the features are only resampled (only if a warp was drawn, before masking, border-clamped bilinear) "
-            "and then filled once with the literal 0.0 under the mask; (S5) time and frequency draws are alpha-equivalent "
-            "and have the forms RAND*(L-2H)+H, RAND*2H-H, long(RAND*(cap+1-eps)), long(RAND*(L-width+1-eps)) with the "
-            "documented caps - from which the drawn-parameter bounds follow by real arithmetic; (S6) composing the draw's "
+            "and then filled once with the literal 0.0 under the mask; (S5) the eight drawn slots, interpreted for one "
+            "sequence and one mask slot over rationals, equal the documented formulas RAND*(L-2H)+H, RAND*2H-H, "
+            "long(RAND*(cap+1-eps)) (zero beyond the allowed number of masks), long(RAND*(L-width+1-eps)) with the documented "
+            "half-ranges and caps at every grid point - from which the drawn-parameter bounds follow by real arithmetic; (S6) composing the draw's "
             "(centre, shift) terms with warp_1d_grid's knot terms, the moved knot stays strictly between the pinned knots "
             "by more than eps for every draw [known finding F25: it does not]. NOT decided: warp "
             "monotonicity / range / finiteness given well-separated knots (spline and grid_sample numerics), output shape."),
@@ -503,6 +504,6 @@ MANIFEST = dict(
         "grid_sample numerics are not decided."),
     level_note="Trusted: python ast; torch.rand in [0,1), .long() truncation; real-arithmetic idealisation of the eps tricks. "
                "Known finding F25: centre + shift in (L-1, L) is clamped onto the pinned last-frame knot (singular up to eps).",
-    technique="static analysis: sibling alpha-equivalence in polynomial normal form, slot-role dataflow, path typestate, eval-path identity, producer/consumer term composition over a finite grid",
+    technique="static analysis: abstract interpretation of the draw function over rationals compared with the documented formulas on a finite grid, slot-role dataflow, path typestate, eval-path identity, producer/consumer term composition over a finite grid",
     design_ref="DESIGN.md section 4 C08",
 )
